@@ -10,6 +10,12 @@ COMMON_NOTE = ('Trusted base: z3 4.x/5.1 (python3-vt), the symx forking engine, 
                'reals), sizes beyond the stated bounds, GPU, complex dtypes. ')
 
 CHECKS = {
+ 'C20': dict(
+    text='Domain value lists, probe values, factor/weight shapes and label/factor pairings are chosen by solver variables; the real FiniteDomain/RangeDomain/FiniteFactor/add_factor/add_domain/shape code is executed for every choice and compared with the definition '
+         '(mutually inverse numberings, contains, equality by content; weights accepted iff shapes agree; apply returns exactly the symbolic cell at the numberized position; binding succeeds iff terminal, arity and domains match and the label is unbound; rejected calls change nothing).',
+    note='Bounds: value lists of length <=3 (quick) / <=4 from a 10-element pool of mixed hashable values; sizes 0..3, ranks <=2; weights as nested lists (concrete sentinels), Tensor or PatternedTensor (symbolic cells); 360 binding combinations. '
+         'Outside: nested lists for shapes with a zero before the last axis (inexpressible); patterned weights with non-trivial sparsity patterns are covered by C06 __getitem__.',
+    technique='bounded symbolic execution (symbolic value lists and shapes) + SMT identity of applied cells', design='5/C20'),
  'C17': dict(
     text='The two grammars are chosen by solver variables from a universe of rule skeletons over shared node/edge ids and of nonterminal names built to provoke pairing clashes; conjoin_hrgs must produce exactly one rule per conjoinable pair (conjoinability by the '
          'definition), each carrying nodes, externals, the paired nonterminal edges and both sets of terminal edges, under an injective naming of pairs disjoint from existing labels, with start = pair of starts; terminal conflicts raise ValueError; arguments untouched. '
